@@ -16,6 +16,22 @@ def exh_quick_flags(cfg, tier):
     return ["-DVX_EXH_QUICK=1"] if (tier == "quick" and cfg.name in FLOAT_COVER) else []
 
 
+def convert_pairs_flags(cfg, tier, part=None):
+    """Scrape the width-1 cross-size convert<To, From> specialisations from the headers of the working tree: 'every pair for which a conversion is provided'."""
+    import glob, os, re
+    bits = {"8": "8", "16": "16", "32": "32", "64": "64"}.get(part)
+    if bits is None:
+        return []
+    pairs = set()
+    for f in glob.glob(os.path.join(C.INC, "avel/impl/vectors/Vec1x*.hpp")):
+        for m in re.finditer(r"convert<((?:vec|mask)1x(\d+)([ui])), ((?:vec|mask)1x(\d+)([ui]))>\(", open(f).read()):
+            to, tb, ts, fr, fb, fs = m.groups()
+            if fb == bits and tb != fb:
+                pairs.add((to, fr))
+    body = " ".join(("XV(%s,%s)" if t.startswith("vec") else "XM(%s,%s)") % (t, f) for t, f in sorted(pairs))
+    return ["-DVX_CONVERT_PAIRS=" + body]
+
+
 TUS = {
     "t_arith": {"sources": ["t_arith.cpp"], "parts": INT_PARTS},
     "t_cmp": {"sources": ["t_cmp.cpp"], "parts": INT_PARTS + FLT_PARTS},
@@ -33,6 +49,7 @@ TUS = {
     "t_denom": {"sources": ["t_denom.cpp"], "parts": INT_PARTS},
     "t_denomv": {"sources": ["t_denom.cpp"], "parts": INT_PARTS, "flags": ["-DVX_DENOM_VECTOR=1"]},
     "t_scalar": {"sources": ["t_scalar.cpp"], "parts": INT_PARTS + FLT_PARTS},
+    "t_convert": {"sources": ["t_convert.cpp"], "parts": INT_PARTS + FLT_PARTS, "cfg_flags": convert_pairs_flags},
     "t_select": {"sources": ["t_select.cpp"], "parts": INT_PARTS + FLT_PARTS},
 }
 
@@ -234,5 +251,16 @@ PROPS = {
         "explanation": "differential exploration: the reference for a lane is AVEL's own scalar overload (selected without implicit promotion), so no expected values are written by hand; "
                        "a disagreement names the operation, type, configuration and input",
         "assumptions": ["scalar overloads against the plain C++ model are decided by C06/C07/C10-C13 (scalar subjects there)"],
+    },
+    "C17": {
+        "tus": ["t_convert"],
+        "configs": int_cfgs,
+        "rule": "for every integer vector type: convert<counterpart>(v)[0], the converting constructor, bit_cast to the counterpart and to the float vector of the same shape, and the "
+                "identity conversion over every 8/16-bit lane value and the L32/L64 lattices joined with the float lattices' bit patterns; for every mask type: convert / converting "
+                "constructor / bit_cast to the sibling and to itself over all 2^N lane patterns (N <= 16) or the structured alphabet; width-1 cross-size conversions: every "
+                "convert<To, From> specialisation found in the Vec1x* headers of the working tree, against static_cast. non-trivial: top bit of the lane set / mixed mask pattern.",
+        "explanation": "every provided conversion on every lane value against static_cast; converted masks are decoded from their raw bytes, so a lane whose truth value changed or a "
+                       "non-canonical representation is a failure",
+        "assumptions": ["the list of width-1 cross-size conversions is scraped from the headers at run time"],
     },
 }
